@@ -142,7 +142,9 @@ func (c *cdbdriver) GetLocationByMap(ipnet *net.IPNet, mapID []byte, context Con
 			// already counts the 96 prefix bits
 			maxMask += 96
 		}
-		isv4 = true
+		// disclosed with fewer than 96 bits it is an IPv6 prefix that merely
+		// covers the v4-mapped block
+		isv4 = maxMask >= 96
 	}
 	// maskLens DB key: "\000/"
 	bitmapKey := maskLensKeyElement
